@@ -63,9 +63,45 @@ def _as_attr_store(e):
     return e
 
 
+def _object_stored(e):
+    """`obj.slot = G` where G is a graph object that the function goes on editing: what is stored is the *object*; whether
+    the edits happen before or after the store (a helper that builds and returns the graph, against edits through the slot)
+    is visible in the edit effects themselves.  The stored value is reduced to the object under its `«edit»` marks when every
+    alternative of a conditional value is the same object."""
+    from ..termflow import Event, key_atom, poly_from_key, _is_polykey
+
+    if e.name != "store_attr" or len(e.args) != 2 or not isinstance(e.args[1], Poly):
+        return e
+
+    def strip(k):
+        a = key_atom(k) if isinstance(k, tuple) else None
+        while a is not None and a[0] == "upd":
+            k = a[2]
+            a = key_atom(k)
+        return k
+
+    k = e.args[1].key()
+    a = key_atom(k)
+    if a is not None and a[0] == "cond":
+        bases = {strip(v) for _, v in a[1]}
+        if len(bases) != 1:
+            return e
+        base = bases.pop()
+    else:
+        base = strip(k)
+    if base == k or not _is_polykey(base):
+        return e
+    ba = key_atom(base)
+    if ba is None or ba[0] != "call" or "PyDiGraph" not in str(ba[1]):
+        return e
+    n = Event("store_attr", [e.args[0], poly_from_key(base)], dict(e.kwargs), e.guards, e.node)
+    n.full_guards = list(getattr(e, "full_guards", e.guards))
+    return n
+
+
 def _effects(ex, ignored=IGNORED, keep_log_r=False):
     out = []
-    for e in map(_as_attr_store, ex.events):
+    for e in map(_object_stored, map(_as_attr_store, ex.events)):
         if e.name == ".update" and e.args:
             pass  # dict.update(mapping): an effect (only the argument-less Tree.update() is a refresh)
         elif e.name in ignored or e.name.startswith(".get_"):
